@@ -353,7 +353,6 @@ struct RefSubject {
         }
         std::uint64_t h = vf::mix(vf::mix(nh, (std::uint64_t)st), vf::mix(op, vf::mix(a.v, a.y)));
         vf::cover(label(op), h, true);
-        if (vf::want_sample(label(op))) { vf::sample(label(op), "state=%d (0 empty, k+1 bound to object k; object values {0,1,2,1}) v=%d other-state=%d", st, a.v, a.y); }
         if (!battery()) { resync(); }
     }
 };
